@@ -57,6 +57,18 @@ XMODE = [
 
 def expand(job):
     rnd = random.Random(job["seed"])
+    if job.get("kind") == "gen":        # the recurrence universe of MC_C12.tla (anchors at month ends / leap day / week 53 ...), emitted by TLC
+        from harness.common import tp_rec
+        for mm, fmt, n, rep, y, a, b, dy, dmo, dd, dh in job["tuples"]:
+            anchor = tp_rec(rep, y, a, b, sod=82800, zh=1, zm=0)
+            d = {"fmt": fmt, "n": n, "a": anchor}
+            if fmt == 1:
+                from harness.drivers.recur import _same_zone_shift
+                d["s"] = _same_zone_shift(mm, anchor, 86400 + 3600)
+            else:
+                d["d"] = {k_: v for k_, v in (("y", dy), ("mo", dmo), ("d", dd), ("h", dh)) if v} or {"s": 0}
+            yield {"mode": mm, "rec": d}
+        return
     if job.get("kind") == "xmode":       # the same recurrence TEXTS under every mode in turn, through one parser object
         from harness.common import SPELLINGS, tp_rec
         for _round in range(job["rounds"]):
@@ -94,7 +106,28 @@ def expand(job):
             yield {"mode": sp, "rec": d}
 
 
+def gen_tuples():
+    import shutil
+    import tempfile
+    from harness import tlc
+    scratch = tempfile.mkdtemp(prefix="isodt_gen_")
+    try:
+        r = tlc.model_check("MC_C12.tla", "Gen_C12.cfg", scratch, workers=4)
+        tuples = tlc.gen_lines(r["out"])
+    finally:
+        shutil.rmtree(scratch, ignore_errors=True)
+    if len(tuples) < 5000:
+        raise tlc.MachineryError("TLC generated only %d recurrences" % len(tuples))
+    return tuples
+
+
 def jobs(tier, seed):
+    tuples = gen_tuples()
+    step = len(tuples) // 4 + 1
+    return [{"kind": "gen", "tuples": tuples[i * step:(i + 1) * step], "seed": seed} for i in range(4)] + jobs_rest(tier, seed)
+
+
+def jobs_rest(tier, seed):
     if tier == "quick":
-        return [{"n": 300, "seed": seed * 100 + j} for j in range(15)] + [{"kind": "xmode", "rounds": 2, "seed": seed}]
+        return [{"n": 300, "seed": seed * 100 + j} for j in range(11)] + [{"kind": "xmode", "rounds": 2, "seed": seed}]
     return [{"n": 4000, "seed": seed * 1000 + j} for j in range(30)] + [{"kind": "xmode", "rounds": 6, "seed": seed + j} for j in range(2)]
